@@ -114,7 +114,7 @@ func isNamed(t types.Type) bool { _, ok := t.(*types.Named); return ok }
 
 func (fg *FuncGen) fieldComp(st types.Type, i int) *Comp {
 	u := st.Underlying().(*types.Struct)
-	name := fmt.Sprintf("H_%s.%s", shortType(st), u.Field(i).Name())
+	name := fmt.Sprintf("H_%s.%s", shortType(st), fieldSelName(u, i))
 	return fg.comp(name, fmt.Sprintf("(Array Int %s)", fg.enc.sortOf(u.Field(i).Type())), "field")
 }
 
